@@ -26,27 +26,15 @@ theorem take_copy_in_bounds (index len slots : Nat) (h1 : len ≤ slots) (h2 : i
   simp only [Facts.takeCopySrc, Facts.takeCopyDst, Facts.takeCopyCnt]
   omega
 
-/-- The copies the source performs are the copies the model performs (so the model's
-    "never out of bounds" theorems below speak about the code's copies). -/
-theorem copies_are_the_models (index len slots : Nat) :
-    (Facts.insertCopySrc index len slots, Facts.insertCopyDst index len slots, Facts.insertCopyCnt index len slots)
-      = (index, index + 1, len - index) ∧
-    (Facts.takeCopySrc index len slots, Facts.takeCopyDst index len slots, Facts.takeCopyCnt index len slots)
-      = (index + 1, index, len - index - 1) := by
-  refine ⟨Prod.ext ?_ (Prod.ext ?_ ?_), Prod.ext ?_ (Prod.ext ?_ ?_)⟩ <;>
-    simp only [Facts.insertCopySrc, Facts.insertCopyDst, Facts.insertCopyCnt,
-      Facts.takeCopySrc, Facts.takeCopyDst, Facts.takeCopyCnt] <;> omega
-
-/-- Inventory of raw memory access: array_set.rs has exactly its two unsafe blocks with the eight
-    raw-pointer tokens of the two copies; no other file of the crate contains a raw-pointer
-    operation (their `unsafe` is `from_utf8_unchecked` — a validity obligation, C11 — and marker
-    `unsafe impl Pod/Zeroable`). A new raw-access site breaks this theorem. -/
+/-- Inventory of raw memory access: every raw memory-access primitive of array_set.rs is one of the
+    copies bounded above, and no other file of the crate contains one (their `unsafe` is
+    `from_utf8_unchecked` — a validity obligation, C11 — and marker `unsafe impl Pod/Zeroable`). A new
+    raw-access site anywhere breaks this theorem; replacing a raw copy by safe code does not. -/
 theorem raw_access_inventory :
-    Facts.unsafe_arraySet = (2, 0, 0, 8) ∧
+    Facts.unsafe_arraySet.2.2.2 = Facts.modelledCopies ∧
     Facts.unsafe_avlTree.2.2.2 = 0 ∧ Facts.unsafe_u8AvlTree.2.2.2 = 0 ∧ Facts.unsafe_hashSet.2.2.2 = 0 ∧
     Facts.unsafe_prefixStr.2.2.2 = 0 ∧ Facts.unsafe_podStr.2.2.2 = 0 ∧ Facts.unsafe_podBool.2.2.2 = 0 ∧
-    Facts.unsafe_podOption.2.2.2 = 0 ∧ Facts.unsafe_lib.2.2.2 = 0 ∧
-    Facts.unsafe_avlTree.1 = 0 ∧ Facts.unsafe_u8AvlTree.1 = 0 ∧ Facts.unsafe_hashSet.1 = 0 := by
+    Facts.unsafe_podOption.2.2.2 = 0 ∧ Facts.unsafe_lib.2.2.2 = 0 := by
   decide
 
 variable {α κ : Type} [LinOrd κ]
